@@ -2,6 +2,8 @@ package main
 
 import (
 	"fmt"
+	"go/token"
+	"go/types"
 	"sort"
 	"strings"
 
@@ -74,4 +76,96 @@ func (w *World) closeSites(fn *ssa.Function) []string {
 	}
 	sort.Strings(out)
 	return out
+}
+
+// finalFields computes the struct fields of the module that are only ever written while
+// their object is being constructed (every store in the module targets an object allocated
+// by the storing function itself) and that code outside the module cannot name (unexported
+// field or unexported struct type). Such fields keep their value across calls with unknown
+// effects; the set is recomputed from the source on every run.
+func (w *World) computeFinalFields() {
+	mutable := map[string]bool{}
+	var markType func(t types.Type, depth int)
+	markType = func(t types.Type, depth int) {
+		s, ok := isStruct(t)
+		if !ok || depth > 4 {
+			return
+		}
+		if _, isTP := types.Unalias(t).(*types.TypeParam); isTP {
+			return
+		}
+		for i := 0; i < s.NumFields(); i++ {
+			mutable[structName(t)+"."+s.Field(i).Name()] = true
+			markType(s.Field(i).Type(), depth+1)
+		}
+	}
+	seen := map[*ssa.Function]bool{}
+	var visit func(f *ssa.Function)
+	visit = func(f *ssa.Function) {
+		if f == nil || seen[f] {
+			return
+		}
+		seen[f] = true
+		promoted := computePromoted(f)
+		for _, b := range f.Blocks {
+			for _, in := range b.Instrs {
+				st, ok := in.(*ssa.Store)
+				if !ok {
+					continue
+				}
+				if freshRooted(st.Addr, promoted, 0) || stackRooted(st.Addr) {
+					continue
+				}
+				et := elemTypeOfPtr(st.Addr.Type())
+				if et != nil && isAggregate(et) {
+					markType(et, 0)
+				}
+				if fa, ok := st.Addr.(*ssa.FieldAddr); ok {
+					if s, ok := isStruct(elemTypeOfPtr(fa.X.Type())); ok {
+						mutable[structName(elemTypeOfPtr(fa.X.Type()))+"."+s.Field(fa.Field).Name()] = true
+					}
+				} else if et != nil && !isAggregate(et) {
+					// store through a pointer of unknown origin: any field of that type may be the target
+					want := shortTypeString(et)
+					for _, fi := range w.fidRev {
+						if shortTypeString(fi.ftype) == want {
+							mutable[fi.owner+"."+fi.field] = true
+						}
+					}
+				}
+			}
+		}
+		for _, a := range f.AnonFuncs {
+			visit(a)
+		}
+	}
+	for _, f := range w.funcs {
+		visit(f)
+	}
+	w.finalFields = map[string]bool{}
+	for _, fi := range w.fidRev {
+		key := fi.owner + "." + fi.field
+		if mutable[key] {
+			continue
+		}
+		unexportedField := !token.IsExported(fi.field)
+		if !unexportedField {
+			continue
+		}
+		w.finalFields["H_"+fi.owner+"_"+fi.field] = true
+	}
+}
+
+// isFinalComp reports whether a heap component is a final field (see computeFinalFields).
+func (w *World) isFinalComp(c string) bool {
+	if w.finalFields[c] {
+		return true
+	}
+	// component names may carry a sort suffix
+	for k := range w.finalFields {
+		if strings.HasPrefix(c, k+"_") {
+			return true
+		}
+	}
+	return false
 }
